@@ -129,6 +129,30 @@ def check_maxtime_line(g: List[float], override: bool) -> bool:
     return _common(es.TimeSeries, g, T)
 
 
+def check_maxtime_set_after_parse(g: List[float], N: int, twice: bool) -> bool:
+    """
+    pre: len(g) <= 3
+    pre: all(-100 <= v <= 100 for v in g)
+    pre: 0 <= N <= 3
+    post: _
+    """
+    # the block is parsed by the constructor (MaxTime = 2 in the text); the attribute is changed afterwards
+    ES.SYM_G = g
+    ES.SYM_IC = 0.0
+    es = EquationSolver(B_MAXT)
+    es.MaxTime = N
+    try:
+        es.SolveEquation()
+        if twice:
+            es.SolveEquation()
+    except ValueError:
+        return len(g) < 3 or len(g) < N + 1
+    H = es.Parser.MaxTime            # whatever horizon the solver reports, every series must agree with it
+    if len(g) < H + 1:
+        return False
+    return _common(es.TimeSeries, g, H)
+
+
 def check_bad_values_rejected(which: int, T: int) -> bool:
     """
     pre: 0 <= which <= 3
